@@ -79,6 +79,10 @@ type RestAgent struct {
 	// map UUIDs to EIDs and received bundles
 	clients sync.Map // uuid[string] -> bpv7.EndpointID
 	mailbox sync.Map // uuid[string] -> []bpv7.Bundle
+
+	// mailboxMutex serializes the compound mailbox operations: appending a bundle (load, store),
+	// fetching (load, delete) and unregistering a client.
+	mailboxMutex sync.Mutex
 }
 
 // NewRestAgent creates a new RESTful Application Agent.
@@ -121,6 +125,9 @@ func (ra *RestAgent) handler() {
 
 // receiveBundleMessage checks incoming BundleMessages and puts them inbox.
 func (ra *RestAgent) receiveBundleMessage(msg BundleMessage) {
+	ra.mailboxMutex.Lock()
+	defer ra.mailboxMutex.Unlock()
+
 	var uuids []string
 	ra.clients.Range(func(k, v interface{}) bool {
 		if bagHasEndpoint(msg.Recipients(), v.(bpv7.EndpointID)) {
@@ -197,14 +204,32 @@ func (ra *RestAgent) handleUnregister(w http.ResponseWriter, r *http.Request) {
 		log.WithError(jsonErr).Warn("Failed to parse REST unregistration request")
 	} else {
 		log.WithField("uuid", unregisterRequest.UUID).Info("Unregister REST client")
+
+		ra.mailboxMutex.Lock()
 		ra.clients.Delete(unregisterRequest.UUID)
 		ra.mailbox.Delete(unregisterRequest.UUID)
+		ra.mailboxMutex.Unlock()
 	}
 
 	w.Header().Set("Content-Type", "application/json")
 	if err := json.NewEncoder(w).Encode(unregisterResponse); err != nil {
 		log.WithError(err).Warn("Failed to write REST unregistration response")
 	}
+}
+
+// fetchMailbox empties some client's inbox and returns its bundles, if there were any.
+func (ra *RestAgent) fetchMailbox(uuid string) (bundles []bpv7.Bundle, ok bool) {
+	ra.mailboxMutex.Lock()
+	defer ra.mailboxMutex.Unlock()
+
+	val, ok := ra.mailbox.Load(uuid)
+	if ok {
+		bundles = val.([]bpv7.Bundle)
+
+		verifPoint("rest.fetch.loaded")
+		ra.mailbox.Delete(uuid)
+	}
+	return
 }
 
 // handleFetch returns the bundles from some client's inbox, called by /fetch.
@@ -217,13 +242,10 @@ func (ra *RestAgent) handleFetch(w http.ResponseWriter, r *http.Request) {
 	if jsonErr := json.NewDecoder(r.Body).Decode(&fetchRequest); jsonErr != nil {
 		log.WithError(jsonErr).Warn("Failed to parse REST fetch request")
 		fetchResponse.Error = jsonErr.Error()
-	} else if val, ok := ra.mailbox.Load(fetchRequest.UUID); ok {
+	} else if bundles, ok := ra.fetchMailbox(fetchRequest.UUID); ok {
 		log.WithField("uuid", fetchRequest.UUID).Info("REST client fetches bundles")
-		fetchResponse.Bundles = val.([]bpv7.Bundle)
-
-		verifPoint("rest.fetch.loaded")
-		ra.mailbox.Delete(fetchRequest.UUID)
-	} else if !ok {
+		fetchResponse.Bundles = bundles
+	} else {
 		log.WithField("uuid", fetchRequest.UUID).Debug("REST client has no new bundles to fetch")
 		fetchResponse.Bundles = make([]bpv7.Bundle, 0)
 	}
